@@ -92,21 +92,21 @@ class GotranPythonCodePrinter(PythonCodePrinter):
         return "".join(result)
 
     def _print_And(self, expr):
-        if len(expr.args) == 2:
-            value = f"numpy.logical_and({self._print(expr.args[0])}, {self._print(expr.args[1])})"
-        else:
-            args = ", ".join(self._print(arg) for arg in expr.args)
-            value = f"numpy.logical_and.reduce(({args}))"
+        # Nest the binary ufunc: ``logical_and.reduce((a, b, c))`` needs operands of one
+        # shape (it fails for a mix of scalars and arrays) and is not available in JAX
+        args = [self._print(arg) for arg in expr.args]
+        value = args[0]
+        for arg in args[1:]:
+            value = f"numpy.logical_and({value}, {arg})"
 
         return value
 
     def _print_Or(self, expr):
         # value = super()._print_Or(expr)
-        if len(expr.args) == 2:
-            value = f"numpy.logical_or({self._print(expr.args[0])}, {self._print(expr.args[1])})"
-        else:
-            args = ", ".join(self._print(arg) for arg in expr.args)
-            value = f"numpy.logical_or.reduce(({args}))"
+        args = [self._print(arg) for arg in expr.args]
+        value = args[0]
+        for arg in args[1:]:
+            value = f"numpy.logical_or({value}, {arg})"
 
         return value
 
